@@ -22,6 +22,7 @@ func init() {
 			"R2": "every time.NewTicker / time.After period inside the follower loop functions folds to <= 500 ms and one exists; the periodic check function reaches an acquisition round from the Get-error edge and from the empty-value edge, and is called under claim == false; no computed pause in the follower loop's functions; path exploration from every call of the check function (through the loop's single-call-site functions): at most one timer case / ticker tick is passed before the next check (claim==true and ctx.Done() edges end a path)",
 			"R3": "every Return of the follower loop's root function is guarded by ctx.Err() != nil or is the ctx.Done() case of a select",
 			"R4": "see C17-R1",
+			"R6": "for every go statement whose goroutine reaches Create (outside the follower loop itself): an atomic flag (other than the claim) tested or swapped among the conditions of the go statement is accepted only if a Store(false) of it is deferred first thing in, or reached on every path through, the started goroutine",
 			"R5": "every `return nil` of the acquisition function (and of the functions whose result it passes on) is guarded by the claim-set unit having returned true; in Start, the err != nil edge of the first acquisition reaches the follower transition",
 		},
 	})
@@ -82,6 +83,9 @@ func checkC06(c *Ctx) {
 			// returns early - there is nothing to follow yet
 		case i >= len(must) && l.S.Op == "param" && l.S.V != nil && isBoolType(l.S.V.Type()):
 			// the unit's mode flag (demote / stay follower) in that early return
+		case i >= len(must) && m.isTermIdentityLit(l):
+			// a demotion bound to one term (issued by that term's loops) does nothing when the term is
+			// no longer current: the demotion that ended it has started the follower loop
 		case strings.Contains(s, m.path(m.Ctx)) || strings.Contains(s, "/ctx"):
 		case strings.Contains(s, "watcherRunning") || (strings.Contains(s, "(*sync/atomic.Bool).Load(&"+m.ImplName+".") && !m.isClaimLoadSym(l.S)):
 		case strings.Contains(s, m.path(m.State)):
@@ -417,6 +421,46 @@ func checkC06(c *Ctx) {
 
 	// ---- R5: a failed acquisition is reported, and a failed initial acquisition starts the loop
 	acquisitionResultRule(c, "R5")
+
+	// ---- R6: a requested acquisition round is started ---------------------------------------------
+	// The goroutine that runs an acquisition round is started whenever the election runs; a flag
+	// that suppresses it ("a round is already in flight") must be cleared on EVERY exit of that
+	// goroutine, or one exit (the cancelled one) leaves it set and the instance never competes again.
+	nRound := 0
+	for _, sp := range m.Spawns() {
+		isRound := false
+		for _, t := range sp.Targets {
+			if !m.staticReach(t, false)[root] && t != root && m.reachesCreate(t) {
+				isRound = true
+			}
+		}
+		if !isRound || sp.At == nil {
+			continue
+		}
+		nRound++
+		must := m.GuardsAt(sp.At)
+		conds := append(append([]Lit{}, must...), m.controlConds(sp.At)...)
+		var foreign []string
+		for _, l := range conds {
+			str := l.S.String()
+			if l.Derived || m.isClaimLoadSym(l.S) {
+				continue
+			}
+			if l.S.Op == "call" && (l.S.Name == "(*sync/atomic.Bool).Load" || l.S.Name == "(*sync/atomic.Bool).CompareAndSwap" || l.S.Name == "(*sync/atomic.Bool).Swap") && len(l.S.Args) >= 1 {
+				flag := l.S.Args[0].String()
+				for _, t := range sp.Targets {
+					if !m.flagClearedOnEveryExit(t, flag) {
+						foreign = append(foreign, str+" (not cleared on every exit of "+shortFn(t)+")")
+					}
+				}
+			}
+		}
+		key := fmt.Sprintf("acquisition round started unconditionally: go #%d in %s", ordinalOf(sp.Fn, sp.At, func(x ssa.Instruction) bool { _, ok := x.(*ssa.Go); return ok }), shortFn(sp.Fn))
+		c.check(len(foreign) == 0, "R6", key, sp.At, "atomic flags that decide whether the goroutine is started and are not cleared on each of its exits: %v (one exit - typically the cancelled one - leaves the flag set; after a restart every vacancy is ignored: candidates must not give up)", foreign)
+	}
+	if nRound == 0 {
+		c.undecided("R6", "instance-floor", nil, "no goroutine that runs an acquisition round found")
+	}
 	if acq := m.acquisitionFn(); acq != nil {
 		// the start unit's goroutine: on error, the follower transition
 		if st := m.method("Start"); st != nil {
@@ -549,4 +593,54 @@ func acquisitionResultRule(c *Ctx, rule string) {
 		}
 	}
 	check(acq, 0)
+}
+
+
+// reachesCreate: f can (through static calls, not go) issue KeyValue.Create.
+func (m *Model) reachesCreate(f *ssa.Function) bool {
+	for _, g := range sortedFns(m.staticReach(f, false)) {
+		found := false
+		eachInstr(g, func(in ssa.Instruction) {
+			if _, ok := m.isKVCall(valueOf(in), "Create"); ok {
+				found = true
+			}
+		})
+		if found {
+			return true
+		}
+	}
+	return false
+}
+
+// flagClearedOnEveryExit: the goroutine function t stores false to the atomic flag (named by the
+// symbolic form of its address) in a defer at its start, or on every path to its exits.
+func (m *Model) flagClearedOnEveryExit(t *ssa.Function, flag string) bool {
+	isClear := func(cc *ssa.CallCommon) bool {
+		f := cc.StaticCallee()
+		if f == nil || f.String() != "(*sync/atomic.Bool).Store" || len(cc.Args) != 2 || m.Sym.Of(cc.Args[0]).String() != flag {
+			return false
+		}
+		k, isC := constBool(cc.Args[1])
+		return isC && !k
+	}
+	if len(t.Blocks) == 0 {
+		return false
+	}
+	for _, in := range t.Blocks[0].Instrs {
+		if d, ok := in.(*ssa.Defer); ok && isClear(&d.Call) {
+			return true
+		}
+		if _, isCall := in.(*ssa.Call); isCall {
+			break
+		}
+	}
+	first := firstInstr(t)
+	if first == nil {
+		return false
+	}
+	ok, _ := mustFollow(first, func(x ssa.Instruction) bool {
+		call, ok := x.(*ssa.Call)
+		return ok && isClear(&call.Call)
+	}, nil)
+	return ok
 }
